@@ -1231,7 +1231,8 @@ def gen_net_name(rng, fam):
         return rng.choice([b"a\x1f", b"\x1ceth0", b"\x1d", b"eth0\x1e\x1f", b"eth\xc2\x85", b"\xe2\x80\xa8x",
                            b"w\xe3\x80\x80", b"\xe1\x9a\x80"])
     if fam == "innerws":
-        return rng.choice([b"a b", b"a\tb", b"a\x1fb", b"a\x1c\x1db", b"x  y z"])
+        # (a `\r` inside a name is an ordinary character since open_text reads with newline="\n")
+        return rng.choice([b"a b", b"a\tb", b"a\x1fb", b"a\x1c\x1db", b"x  y z", b"a\rb", b"\rx", b"x\r"])
     n = rng.randrange(1, 16)
     return bytes(rng.choice(NAMECHARS + b":/") for _ in range(n))
 
